@@ -311,8 +311,8 @@ def run(tier, seed, t0):
     for n in (1, 2, 3):
         parts = 1 if n < 3 else 16
         descs += [{"n": n, "ages": ages6, "part": i, "nparts": parts, "seed": seed} for i in range(parts)]
-    # n = 4: complete in thorough, a seed-dependent 1/40 sample in quick (both parent-column placements are enumerated)
-    descs += [{"n": 4, "ages": ages4, "part": i, "nparts": 32, "seed": seed, "every": 1 if tier == "thorough" else 40} for i in range(32)]
+    # n = 4: a seed-dependent 1/3 sample in thorough, 1/40 in quick (both parent-column placements are enumerated)
+    descs += [{"n": 4, "ages": ages4, "part": i, "nparts": 32, "seed": seed, "every": 3 if tier == "thorough" else 40} for i in range(32)]
     if tier == "thorough":
         descs += [{"n": 5, "ages": [10, 24, 45], "part": i, "nparts": 32, "seed": seed, "every": 40} for i in range(32)]
     extra = [("vf.checks.c12", "exhaustive_shard", descs)]
